@@ -253,10 +253,18 @@ func runBatch(r *core.Run) {
 			parts, a, err = protocol.EncodeCMPPContentAndSplit(bg, text, datacoding.CMPPDataCoding(n), ref)
 			actual = int(a)
 		}
+		np := len(parts)
 		if err != nil || actual != n {
-			continue // e.g. more than 255 parts
+			// the single-coding entry point refuses or falls back although the reference repertoire check says the
+			// coding can represent the text. Its word cannot decide what Build owes the caller (it is the same
+			// library): the reference greedy splitter counts the parts; more than 255 of them make the coding unusable
+			np = greedyParts(f, text)
+			if np > 255 {
+				continue
+			}
+			r.Probe("single_entry_disagrees_with_reference")
 		}
-		usable = append(usable, cand{n, len(parts), mk(n).Priority()})
+		usable = append(usable, cand{n, np, mk(n).Priority()})
 	}
 	sort.Slice(usable, func(i, j int) bool {
 		if usable[i].parts != usable[j].parts {
